@@ -120,7 +120,8 @@ Proof. intros S H. unfold int_Reciprocals. cbn [fst snd]. apply int_ensure_ck_sp
 
 (* every way of obtaining an IntRNSsystem object: constructors, copy, assignment, and any earlier use *)
 Inductive iexp : Type :=
-  | Imk (ps : list Z)                 (* IntRNSsystem(primes), plain and templated constructor *)
+  | Imk (ps : list Z)                 (* IntRNSsystem(const array& primes) *)
+  | Imktt (ps : list Z)               (* the templated converting constructor IntRNSsystem(const Container<TT,Alloc<TT>>&) *)
   | Idefault                          (* IntRNSsystem() *)
   | Icopy (e : iexp)                  (* IntRNSsystem(const IntRNSsystem&) *)
   | Iassign (dst src : iexp)          (* operator= *)
@@ -129,31 +130,33 @@ Inductive iexp : Type :=
   | Iprod (e : iexp)                  (* the object after product() *)
   | Irecip (e : iexp).                (* the object after Reciprocals() / reciprocal(i) *)
 
-Fixpoint ieval (src : cksrc) (e : iexp) : IntRNS :=
+Fixpoint ieval (src : cksrc) (ci : ckinit) (e : iexp) : IntRNS :=
   match e with
   | Imk ps => int_mk ps
+  | Imktt ps => int_mk_tt ci ps
   | Idefault => int_default
-  | Icopy e => int_copy src (ieval src e)
-  | Iassign d s => int_assign (ieval src d) (ieval src s)
-  | Imix e rs => fst (int_RnsToMixedRadix (ieval src e) rs)
-  | Irns e rs => fst (int_RnsToRing (ieval src e) rs)
-  | Iprod e => fst (int_product (ieval src e))
-  | Irecip e => fst (int_Reciprocals (ieval src e))
+  | Icopy e => int_copy src (ieval src ci e)
+  | Iassign d s => int_assign (ieval src ci d) (ieval src ci s)
+  | Imix e rs => fst (int_RnsToMixedRadix (ieval src ci e) rs)
+  | Irns e rs => fst (int_RnsToRing (ieval src ci e) rs)
+  | Iprod e => fst (int_product (ieval src ci e))
+  | Irecip e => fst (int_Reciprocals (ieval src ci e))
   end.
 
 (* the moduli the object is meant to stand for *)
 Fixpoint iprimes (e : iexp) : list Z :=
   match e with
-  | Imk ps => ps
+  | Imk ps | Imktt ps => ps
   | Idefault => []
   | Icopy e => iprimes e
   | Iassign d s => iprimes s
   | Imix e _ | Irns e _ | Iprod e | Irecip e => iprimes e
   end.
 
-Lemma ieval_wf : forall e, int_wf (ieval FromCk e) /\ i_primes (ieval FromCk e) = iprimes e.
+Lemma ieval_wf : forall e, int_wf (ieval FromCk CkEmpty e) /\ i_primes (ieval FromCk CkEmpty e) = iprimes e.
 Proof.
-  induction e as [ps| |e IH|d IHd s IHs|e IH rs|e IH rs|e IH|e IH]; cbn [ieval iprimes].
+  induction e as [ps|ps| |e IH|d IHd s IHs|e IH rs|e IH rs|e IH|e IH]; cbn [ieval iprimes].
+  - split; [split; left; reflexivity|reflexivity].
   - split; [split; left; reflexivity|reflexivity].
   - split; [split; left; reflexivity|reflexivity].
   - destruct IH as [W P]. unfold int_copy. split; [exact W|exact P].
@@ -165,20 +168,22 @@ Proof.
 Qed.
 
 (* the histories of the correspondence run are instances *)
-Definition hexp (h : hist) (primes other : list Z) : iexp :=
+Definition hexp (tt : bool) (h : hist) (primes other : list Z) : iexp :=
+  let mk := if tt then Imktt else Imk in
   let warm e := Iprod (Irns e (ones (length (iprimes e)))) in
   match h with
-  | Hfresh => Imk primes
-  | Hreuse => Irns (Imk primes) (ones (length primes))
-  | Hcopycold => Icopy (Imk primes)
-  | Hcopywarm => Icopy (warm (Imk primes))
-  | Hcopy2 => Icopy (Icopy (Irns (Imk primes) (ones (length primes))))
-  | Hassigncold => Iassign Idefault (Imk primes)
-  | Hassignwarm => Iassign (warm (Imk other)) (warm (Imk primes))
-  | Hsetcold | Hsetwarm => Imk primes
+  | Hfresh => mk primes
+  | Hreuse => Irns (mk primes) (ones (length primes))
+  | Hcopycold => Icopy (mk primes)
+  | Hcopywarm => Icopy (warm (mk primes))
+  | Hcopy2 => Icopy (Icopy (Irns (mk primes) (ones (length primes))))
+  | Hassigncold => Iassign Idefault (mk primes)
+  | Hassignwarm => Iassign (warm (Imk other)) (warm (mk primes))
+  | Hsetcold | Hsetwarm => mk primes
   end.
-Lemma int_obtain_hexp : forall src h primes other, int_obtain src h primes other = ieval src (hexp h primes other).
-Proof. intros src h primes other. destruct h; reflexivity. Qed.
+Lemma int_obtain_hexp : forall src ci (tt : bool) h primes other,
+  int_obtain src (if tt then int_mk_tt ci else int_mk) h primes other = ieval src ci (hexp tt h primes other).
+Proof. intros src ci tt h primes other. destruct tt, h; reflexivity. Qed.
 
 (* ---------------------------------------------------------------- RNSsystem<RING,Domain> objects *)
 Definition dom_wf (S : DomRNS) : Prop := d_ck S = [] \/ d_ck S = ComputeCk_dom (d_primes S).
@@ -346,6 +351,17 @@ Definition Unique_stmt : Prop :=
 Lemma unique : Unique_stmt.
 Proof. intros ps x y [Hp Hc]. apply crt_unique; assumption. Qed.
 
+(* ... and the coprimality hypothesis is necessary: 0 and 12 are two integers of [0, 4*6) with the same residues mod 4 and 6 *)
+Definition Unique_no_coprime_stmt : Prop :=
+  forall ps x y, allpos ps -> 0 <= x < prodl ps -> 0 <= y < prodl ps ->
+  Forall (fun p => x mod p = y mod p) ps -> x = y.
+Lemma unique_needs_coprime : ~ Unique_no_coprime_stmt.
+Proof.
+  intro H. specialize (H [4; 6] 0 12). cbn in H.
+  assert (E : 0 = 12); [|discriminate E].
+  apply H; try lia; repeat constructor; lia.
+Qed.
+
 (* (4) the conversions are mutually inverse *)
 Definition Inverse_stmt (R2R : list Z -> list Z -> Z) : Prop :=
   forall ps, ps <> [] -> good_moduli ps ->
@@ -374,16 +390,16 @@ Proof.
 Qed.
 
 (* (5) the answers of a system object do not depend on how it was obtained *)
-Definition Int_history_stmt (src : cksrc) : Prop :=
+Definition Int_history_stmt (src : cksrc) (ci : ckinit) : Prop :=
   forall (e : iexp) (rs : list Z) (a : Z),
-  let S := ieval src e in
+  let S := ieval src ci e in
   snd (int_RnsToMixedRadix S rs) = RnsToMixedRadix_int (iprimes e) (ComputeCk_int (iprimes e)) rs /\
   snd (int_RnsToRing S rs) = RnsToRing_int (iprimes e) rs /\
   snd (int_product S) = prodl (iprimes e) /\
   snd (int_Reciprocals S) = ComputeCk_int (iprimes e) /\
   int_RingToRns S a = RingToRns (iprimes e) a.
 
-Lemma int_history : Int_history_stmt FromCk.
+Lemma int_history : Int_history_stmt FromCk CkEmpty.
 Proof.
   intros e rs a S. destruct (ieval_wf e) as [W P]. fold S in W, P.
   destruct (int_RnsToMixedRadix_spec S rs W) as (_ & _ & E1).
@@ -394,9 +410,17 @@ Proof.
 Qed.
 
 (* the copy map of the unrepaired constructor, _ck(R._primes), does not have the property *)
-Lemma int_history_from_primes_refuted : ~ Int_history_stmt FromPrimes.
+Lemma int_history_from_primes_refuted : ~ Int_history_stmt FromPrimes CkEmpty.
 Proof.
   intro H. destruct (H (Icopy (Imk [3; 5; 7])) [1; 2; 3] 0) as (_ & E & _).
+  vm_compute in E. discriminate E.
+Qed.
+
+(* a converting constructor that sizes _ck in its initialiser list (ComputeCk then sees a non-empty table of zeros
+   and returns at once) does not have the property either: moduli 3, 5, 7 from a vector<int>, residues of 52 *)
+Lemma int_history_presized_refuted : ~ Int_history_stmt FromCk CkSized.
+Proof.
+  intro H. destruct (H (Imktt [3; 5; 7]) [1; 2; 3] 0) as (_ & E & _).
   vm_compute in E. discriminate E.
 Qed.
 
@@ -420,7 +444,7 @@ Qed.
 (* (6) end to end: whatever the history, RnsToRing returns THE integer of [0, prod) with the given residues *)
 Definition Int_end_to_end_stmt : Prop :=
   forall (e : iexp) (rs : list Z), iprimes e <> [] -> good_moduli (iprimes e) -> canonical rs (iprimes e) ->
-  let V := snd (int_RnsToRing (ieval FromCk e) rs) in
+  let V := snd (int_RnsToRing (ieval FromCk CkEmpty e) rs) in
   0 <= V < prodl (iprimes e) /\ RingToRns (iprimes e) V = rs /\
   forall x, 0 <= x < prodl (iprimes e) -> RingToRns (iprimes e) x = rs -> x = V.
 
@@ -545,5 +569,5 @@ Proof.
   split; [split|]; repeat constructor; try lia; reflexivity.
 Qed.
 Example end_to_end_example :
-  snd (int_RnsToRing (ieval FromCk (Icopy (Iprod (Irns (Imk [7; 10; 9; 11]) [1; 1; 1; 1])))) [6; 0; 8; 3]) = 1070.
+  snd (int_RnsToRing (ieval FromCk CkEmpty (Icopy (Iprod (Irns (Imktt [7; 10; 9; 11]) [1; 1; 1; 1])))) [6; 0; 8; 3]) = 1070.
 Proof. vm_compute. reflexivity. Qed.
